@@ -1,7 +1,7 @@
 """History-template generators for the store-level driver."""
 from bodies import (INVALID_ICAL, INVALID_VCARD, UIDS, gen_ical, gen_vcard, vevent, vcard)
 
-NAMES_ICS = ["a.ics", "b.ics", "c d.ics", "ü.ics", "E.ICS", "my.git.ics", "x.tmp.ics"]
+NAMES_ICS = ["a.ics", "b.ics", "c d.ics", "ü.ics", "E.ICS", "my.git.ics", "x.tmp.ics", ".draft.ics"]
 NAMES_VCF = ["k.vcf", "l m.vcf"]
 NAMES_OTHER = ["notes.txt", "x"]
 
@@ -15,6 +15,8 @@ def gen_template(rng, toks, length, profile="mixed", kind_hint=None):
         names += [rng.choice(NAMES_VCF)]
     if profile == "mixed" and rng.random() < 0.5:
         names += [rng.choice(NAMES_OTHER)]
+    if profile == "sync" and ".draft.ics" not in names and rng.random() < 0.6:
+        names[0] = ".draft.ics"         # a dot-named member is a member like any other
     uids = rng.sample(UIDS, 3)
     icals = [toks.tok(gen_ical(rng, uid=rng.choice(uids))) for _ in range(5)]
     cards = [toks.tok(gen_vcard(rng)) for _ in range(2)]
@@ -27,6 +29,16 @@ def gen_template(rng, toks, length, profile="mixed", kind_hint=None):
     for _ in range(length):
         r = rng.random()
         name = rng.choice(names)
+        if profile == "sync" and rng.random() < 0.08:
+            # content moves to another name and the old name gets new content: the new member's
+            # ETag is one the old listing knew under a different name
+            ics = [n for n in names if n.lower().endswith(".ics")]
+            if len(ics) >= 2:
+                a, b = rng.sample(ics, 2)
+                t1, t2 = rng.sample(icals, 2)
+                ops += [("put", a, "text/calendar", t1, "none"), ("del", a, "none"), ("put", b, "text/calendar", t1, "none"),
+                        ("put", a, "text/calendar", t2, "none")]
+                continue
         if profile == "meta" and r < 0.45:
             key = rng.choice(["displayname", "description", "color", "comment", "order"])
             val = rng.choice(meta_vals) if rng.random() < 0.9 else None
